@@ -330,6 +330,8 @@ impl Prop for C08 {
         let n = m.len();
         ctx.label(match n { 0 => "n=0", 1..=64 => "n=1..64", 65..=512 => "n=65..512", 513..=2048 => "n=513..2048", _ => "n>2048" });
         if overwrote_one { ctx.label("overwrote-a-one"); }
+        if c.ops.iter().any(|o| matches!(o, BvmOp::ExtendLoose { .. } | BvmOp::ExtendPositionsLoose { .. } | BvmOp::RebuildFromLooseIter(_) | BvmOp::ViaLooseBitVector(_)) || matches!(o, BvmOp::ExtendPattern { mode, .. } if mode % 4 != 0)) { ctx.label("inexact-size-hint"); }
+        if c.ops.iter().any(|o| matches!(o, BvmOp::ExtendPattern { len, .. } if *len > 262_144)) { ctx.label("single-extend>2^18"); }
         if interior_pos { ctx.label("positions-into-interior"); }
         if n > 0 && n % 64 == 0 { ctx.label("n%64==0"); }
         if n > 0 && n % 512 == 0 { ctx.label("n%512==0"); }
